@@ -3,6 +3,7 @@ package props
 import (
 	"encoding/json"
 	"fmt"
+	"strings"
 	"sync"
 
 	"github.com/corestario/kyber"
@@ -13,6 +14,7 @@ import (
 
 	"github.com/lidofinance/dc4bc/client/types"
 	"github.com/lidofinance/dc4bc/fsm/types/requests"
+	"github.com/lidofinance/dc4bc/storage"
 
 	"verifharness/oracle"
 	"verifharness/world"
@@ -62,6 +64,22 @@ func runC11(c *Ctx, n, t, D, V int, kind string, seed uint64) {
 	}
 	ce := &Ceremony{W: w, N: n, T: t}
 	defer ce.Close()
+	if seed%2 == 0 && V >= 0 && V < n {
+		// the board is unreachable when the victim's node posts its first error report; the operator submits
+		// the same result file again (the driver retries a refused submission): the report must still get out
+		outage := false
+		w.Nodes[V].NB.FailSendIf = func(msgs []storage.Message) error {
+			for _, m := range msgs {
+				if !outage && strings.HasSuffix(m.Event, "_canceled_by_error") {
+					outage = true
+					c.Add("error_reports_first_posted_during_a_board_outage", 1)
+					return fmt.Errorf("board unreachable (injected)")
+				}
+			}
+			return nil
+		}
+		wit["board_outage_at_the_victims_first_error_report"] = true
+	}
 	var mu sync.Mutex
 	resultEvents := map[string]string{} // "<node>/<optype>" -> result event
 	applied := false
